@@ -73,7 +73,7 @@ func c08Scenarios(thorough bool) []*engine.SScenario {
 			linScenario([]string{"sub:B:e1f1:L1lc:lc:d"}, [][]string{{pair}, {pair}, {"unsub:B:e1f1:L1lc:d"}}, []string{"set:L1lc:2"}),
 			linScenario([]string{"bind:A:e1f1:L1lc:lc:d", "sub:B:e1f1:L1lc:lc:d"}, [][]string{{"write:A:e1f1:L1lc:limit:ack:2"}, {"sub:A:e1f1:L1lc:lc:d"}}, []string{"set:L1lc:1"}))
 	}
-	return scs
+	return append(scs, pairMatrix("C08", thorough)...)
 }
 
 func init() {
